@@ -91,9 +91,18 @@ let () =
   if p.cross_header = "" then begin output_string oc "Definition bad : list nat := nil.\nPrint bad.\n"; close_out oc; exit 0 end;
   output_string oc p.cross_header;
   let k = min nsample n in
+  (* coqc parses the sample as one list literal: its total size is bounded as well (evenly spaced cases are taken
+     until about 100 kB are reached) *)
+  let budget = ref 100000 and first = ref true in
   for i = 0 to k - 1 do
     let j = if k = 0 then 0 else i * n / k in
-    output_string oc ("  " ^ cs.(j) ^ (if i < k - 1 then ";\n" else "\n"))
+    let c = cs.(j) in
+    if String.length c <= !budget then begin
+      budget := !budget - String.length c;
+      output_string oc ((if !first then "  " else ";\n  ") ^ c);
+      first := false
+    end
   done;
+  output_string oc "\n";
   output_string oc p.cross_footer;
   close_out oc
